@@ -196,11 +196,34 @@ func runC15(r *Run, rng *rand.Rand, thorough bool) {
 			{"id-2q", 1, []*big.Int{new(big.Int).Lsh(q, 1), bi(2)}},
 			{"dup", 1, []*big.Int{bi(5), bi(5)}},
 			{"dup-mod-q", 1, []*big.Int{bi(5), new(big.Int).Add(q, bi(5))}},
+			{"dup-mod-q-with-id-between", 1, []*big.Int{bi(1), bi(2), new(big.Int).Add(q, bi(1))}},
+			{"dup-mod-q-reordered", 1, []*big.Int{new(big.Int).Add(q, bi(1)), bi(2), bi(1)}},
+			{"dup-mod-q-four", 2, []*big.Int{bi(1), bi(2), bi(3), new(big.Int).Add(q, bi(1))}},
+			{"dup-mod-2q", 1, []*big.Int{bi(5), bi(6), new(big.Int).Add(new(big.Int).Lsh(q, 1), bi(5))}},
+			{"dup-exact-with-id-between", 1, []*big.Int{bi(9), bi(4), bi(9)}},
 			{"t-zero", 0, two},
 			{"n-lt-t", 3, two},
 		} {
 			g, _, _ := r.Do("vss.Create/"+tag+"/"+rf.name, true, "vss_create", tag, fmt.Sprint(rf.t), "07", eInts(rf.ids), eInts([]*big.Int{bi(3), bi(4), bi(5)}[:max0(rf.t)]))
 			r.Assert(g == "err", "vss.Create/refusal-"+rf.name, "dealing-refused", func() string { return g })
+		}
+		for k := 0; k < 12; k++ {
+			n := 3 + rng.Intn(4)
+			ids := partyKeys(rng, n, 1, q)
+			a, b := rng.Intn(n), rng.Intn(n)
+			if a == b {
+				b = (a + 1) % n
+			}
+			ids[b] = new(big.Int).Add(new(big.Int).Mod(ids[a], q), new(big.Int).Mul(q, bi(int64(rng.Intn(3)))))
+			if ids[b].Cmp(ids[a]) == 0 {
+				ids[b].Add(ids[b], q)
+			}
+			cs := make([]*big.Int, 2)
+			for i := range cs {
+				cs[i] = bi(int64(3 + i))
+			}
+			g, _, _ := r.Do("vss.Create/"+tag+"/random-congruent-pair", true, "vss_create", tag, "2", "07", eInts(ids), eInts(cs))
+			r.Assert(g == "err", "vss.Create/refusal-random-congruent-pair", "dealing-refused", func() string { return eInts(ids) + " -> " + g[:min(len(g), 40)] })
 		}
 		// K2 grid: zero share / zero id / id ≡ 0 (never a crash)
 		vs0 := vss.Vs{crypto.ScalarBaseMult(c, bi(7)), crypto.ScalarBaseMult(c, bi(3))}
